@@ -296,8 +296,29 @@ class Shapes(SubCheck):
             out.fail("length of shape and Path(shape) differ", l2, l1, kind="length", **tags)
 
 
+def stale_check(svg, tier):
+    from props import stale
+    measures = {
+        "segments": lambda o: [repr(s) for s in o.segments()] if isinstance(o, svg.Shape) else (_ for _ in ()).throw(AttributeError()),
+        "d()": lambda o: o.d() if isinstance(o, svg.Shape) else (_ for _ in ()).throw(AttributeError()),
+        "length": lambda o: o.length(error=1e-4) if isinstance(o, svg.Shape) else (_ for _ in ()).throw(AttributeError()),
+        "bbox": lambda o: o.bbox() if isinstance(o, svg.Shape) else (_ for _ in ()).throw(AttributeError()),
+    }
+    kinds = ["rect", "circle", "ellipse", "sline", "polyline", "polygon"]
+    extra = {
+        "transform.post_scale": lambda o: o.transform.post_scale(2, 3),
+        "transform=scale(2)": lambda o: setattr(o, "transform", svg.Matrix(2, 0, 0, 2, 0, 0)),
+        "imul-scale(2)": lambda o: o.__imul__(svg.Matrix(2, 0, 0, 2, 0, 0)),
+        "imul-scale(2)+reify": lambda o: (o.__imul__(svg.Matrix(2, 0, 0, 2, 0, 0)), o.reify()),
+        "height*=": lambda o: setattr(o, "height", o.height * 2),
+        "ry=": lambda o: setattr(o, "ry", o.ry + 0.25) if not hasattr(o, "sweep") else stale.c18._na(),
+        "y1+=": lambda o: setattr(o, "y1", o.y1 + 1),
+    }
+    return stale.Stale(svg, measures, kinds=kinds, extra_mutations=extra, depth=2)
+
+
 def build(tier, seed, svg):
-    return [Shapes(svg, tier)]
+    return [Shapes(svg, tier), stale_check(svg, tier)]
 
 
 def m_round_direction(d):
@@ -309,4 +330,6 @@ def m_round_direction(d):
     return (T[0] * T[3] < 0) != (af.det(T) < 0)
 
 
-MATCHERS = {"round_direction": m_round_direction}
+from props.stale import m_length_memo_unseen_edit  # noqa: E402
+
+MATCHERS = {"round_direction": m_round_direction, "length_memo_unseen_edit": m_length_memo_unseen_edit}
